@@ -17,31 +17,44 @@ LOCAL UPairs(n, vb) == IF n = 0 THEN <<>>
                        ELSE LET w == 4 + Len(vb) IN
                             [i \in 1..(n * w) |-> LET p == (i - 1) \div w  q == (i - 1) % w IN
                                IF q = 0 THEN 105 ELSE IF q = 1 THEN 2 ELSE IF q = 2 THEN 64 + (p \div 60) ELSE IF q = 3 THEN 64 + (p % 60) ELSE vb[q - 3]]
-\* <<count, integer type marker>>
+\* <<count, integer type marker>>: every width, at the boundary counts of the width (int8 max 127, uint8 max 255)
 LOCAL UCounts == { <<0, 105>>, <<1, 105>>, <<126, 105>>, <<127, 105>>,
                    <<0, 85>>, <<127, 85>>, <<128, 85>>, <<254, 85>>, <<255, 85>>,
                    <<1, 73>>, <<128, 73>>, <<255, 73>>, <<256, 73>>, <<257, 73>>,
                    <<1, 108>>, <<256, 108>>, <<1, 76>>, <<256, 76>> }
+\* containers cost TLC ~2 ms per element and case (single worker), so they get fewer counts:
+LOCAL UBig == { <<255, 85>>, <<256, 73>> }                                                   \* exactly / one fewer (objects: exactly)
+LOCAL USmall == { <<0, 105>>, <<1, 105>>, <<2, 85>>, <<1, 73>>, <<2, 108>>, <<1, 76>> }      \* exactly / one fewer / one more
 LOCAL UAdj(n) == {n} \cup (IF n > 0 THEN {n - 1} ELSE {}) \cup {n + 1}
-LOCAL USizes == {0, 1, 2, 127, 128, 255, 256, 257}
+LOCAL ULow(n) == {n} \cup (IF n > 0 THEN {n - 1} ELSE {})
+\* container head h, element e: all small counts, the big counts
+LOCAL UArr(h, e) == UNION { { h \o ULen(c[1], c[2]) \o URep(e, k) : k \in UAdj(c[1]) } : c \in USmall } \cup
+                    UNION { { h \o ULen(c[1], c[2]) \o URep(e, k) : k \in ULow(c[1]) } : c \in UBig }
+LOCAL UArrS(h, e) == UNION { { h \o ULen(c[1], c[2]) \o URep(e, k) : k \in UAdj(c[1]) } : c \in USmall }
+LOCAL UObj(h, vb) == UNION { { h \o ULen(c[1], c[2]) \o UPairs(k, vb) : k \in UAdj(c[1]) } : c \in USmall } \cup
+                     { h \o ULen(c[1], c[2]) \o UPairs(c[1], vb) : c \in UBig }
 UbjsonRepInputs ==
-  UNION { { <<83>> \o ULen(c[1], c[2]) \o URep(<<97>>, k) : k \in UAdj(c[1]) } : c \in UCounts } \cup                 \* S  strings
-  UNION { { <<72>> \o ULen(c[1], c[2]) \o URep(<<49>>, k) : k \in UAdj(c[1]) } : c \in UCounts } \cup                 \* H  digit runs
-  UNION { { <<91, 35>> \o ULen(c[1], c[2]) \o URep(<<105, 5>>, k) : k \in UAdj(c[1]) } : c \in UCounts } \cup         \* [# n  of int8 items
-  UNION { { <<91, 36, 105, 35>> \o ULen(c[1], c[2]) \o URep(<<251>>, k) : k \in UAdj(c[1]) } : c \in UCounts } \cup   \* [$i# n  (-5 each)
-  UNION { { <<91, 36, 85, 35>> \o ULen(c[1], c[2]) \o URep(<<200>>, k) : k \in UAdj(c[1]) } : c \in UCounts } \cup    \* [$U# n
-  UNION { { <<91, 36, 73, 35>> \o ULen(c[1], c[2]) \o URep(<<255, 0>>, k) : k \in UAdj(c[1]) } : c \in UCounts } \cup \* [$I# n  (-256 each)
-  UNION { { <<91, 36, 83, 35>> \o ULen(c[1], c[2]) \o URep(<<105, 1, 97>>, k) : k \in UAdj(c[1]) } : c \in UCounts } \cup   \* [$S# n
-  UNION { { <<91, 36, 67, 35>> \o ULen(c[1], c[2]) \o URep(<<97>>, k) : k \in UAdj(c[1]) } : c \in UCounts } \cup     \* [$C# n
-  UNION { { <<91, 36, 100, 35>> \o ULen(c[1], c[2]) \o URep(<<63, 128, 0, 0>>, k) : k \in UAdj(c[1]) } : c \in UCounts } \cup   \* [$d# n
-  UNION { { <<91, 36, 91, 35>> \o ULen(c[1], c[2]) \o URep(<<93>>, k) : k \in UAdj(c[1]) } : c \in UCounts } \cup     \* [$[# n  of empty arrays
+  UNION { { <<83>> \o ULen(c[1], c[2]) \o URep(<<97>>, k) : k \in UAdj(c[1]) } : c \in UCounts } \cup     \* S  strings
+  UNION { { <<72>> \o ULen(c[1], c[2]) \o URep(<<49>>, k) : k \in UAdj(c[1]) } : c \in UCounts } \cup     \* H  digit runs
+  UArr(<<91, 35>>, <<105, 5>>) \cup                                      \* [# n  of int8 items
+  UNION { { <<91, 35>> \o ULen(c[1], c[2]) \o URep(<<90>>, k) : k \in ULow(c[1]) } : c \in {<<127, 105>>, <<128, 85>>} } \cup   \* [# 127 / 128 nulls
+  UArr(<<91, 36, 105, 35>>, <<251>>) \cup                                \* [$i# n  (-5 each)
+  UArrS(<<91, 36, 85, 35>>, <<200>>) \cup                                \* [$U# n
+  UArrS(<<91, 36, 73, 35>>, <<255, 0>>) \cup                             \* [$I# n  (-256 each)
+  UArrS(<<91, 36, 83, 35>>, <<105, 1, 97>>) \cup                         \* [$S# n
+  UArrS(<<91, 36, 67, 35>>, <<97>>) \cup                                 \* [$C# n
+  UArrS(<<91, 36, 100, 35>>, <<63, 128, 0, 0>>) \cup                     \* [$d# n
+  UArrS(<<91, 36, 68, 35>>, <<63, 240, 0, 0, 0, 0, 0, 0>>) \cup          \* [$D# n
+  UArrS(<<91, 36, 91, 35>>, <<93>>) \cup                                 \* [$[# n  of empty arrays
   { <<91, 36, t, 35>> \o ULen(c[1], c[2]) : t \in {90, 84, 70}, c \in UCounts \cup {<<300, 73>>, <<301, 73>>, <<1000, 108>>} } \cup   \* [$Z# n, [$T# n, [$F# n
-  UNION { { <<123, 35>> \o ULen(c[1], c[2]) \o UPairs(k, <<84>>) : k \in UAdj(c[1]) } : c \in UCounts } \cup          \* {# n  distinct keys : true
-  UNION { { <<123, 36, 105, 35>> \o ULen(c[1], c[2]) \o UPairs(k, <<7>>) : k \in UAdj(c[1]) } : c \in UCounts } \cup  \* {$i# n
-  UNION { { <<123, 36, 90, 35>> \o ULen(c[1], c[2]) \o UPairs(k, <<>>) : k \in UAdj(c[1]) } : c \in UCounts } \cup    \* {$Z# n  keys only
-  { <<91>> \o URep(<<105, 5>>, k) \o <<93>> : k \in USizes } \cup                                                    \* [ ... ]
-  { <<91>> \o URep(<<105, 5>>, k) : k \in {0, 1, 256} } \cup                                                         \* [ ... without end marker
-  { <<91>> \o URep(<<78, 90>>, k) \o <<93>> : k \in {1, 256} } \cup                                                  \* [ N Z N Z ... ]
-  { <<123>> \o UPairs(k, <<84>>) \o <<125>> : k \in USizes } \cup                                                    \* { ... }
-  { <<123>> \o UPairs(k, <<84>>) : k \in {0, 1, 256} }
+  UObj(<<123, 35>>, <<84>>) \cup                                         \* {# n  distinct keys : true
+  UObj(<<123, 36, 105, 35>>, <<7>>) \cup                                 \* {$i# n
+  UArrS(<<123, 36, 90, 35>>, <<105, 1, 97>>) \cup                        \* {$Z# n  keys only (equal keys)
+  { <<123, 36, 90, 35>> \o ULen(c[1], c[2]) \o UPairs(c[1], <<>>) : c \in USmall \cup {<<64, 105>>} } \cup   \* {$Z# n  distinct keys
+  { <<91, 36, 90, 35, 108, 0, 1, 0, 0>>, <<91, 36, 84, 35, 108, 0, 0, 128, 0>>, <<91, 36, 78, 35, 108, 0, 1, 0, 0>> } \cup      \* [$Z#l 65536, [$T#l 32768, [$N#l 65536
+  { <<91>> \o URep(<<105, 5>>, k) \o <<93>> : k \in {0, 1, 2, 255, 256} } \cup       \* [ ... ]
+  { <<91>> \o URep(<<105, 5>>, k) : k \in {0, 1, 128} } \cup                         \* [ ... without end marker
+  { <<91>> \o URep(<<78, 90>>, k) \o <<93>> : k \in {1, 128} } \cup                  \* [ N Z N Z ... ]
+  { <<123>> \o UPairs(k, <<84>>) \o <<125>> : k \in {0, 1, 2, 256} } \cup        \* { ... }
+  { <<123>> \o UPairs(k, <<84>>) : k \in {0, 1, 128} }
 =============================================================================
